@@ -44,6 +44,12 @@ if not ok:
                 name = t.group(1)
     broken.insert(0, ("Props/C04.v:%s" % name, out[-3000:]))
 
+if ck.thorough() and ok and hasattr(ck, "coqchk"):
+    okc, outc = ck.coqchk(["Verif.Props.C04"])
+    if not okc:
+        broken.append(("coqchk Verif.Props.C04", outc[-2000:]))
+
+ck.log("translator + theorems done (broken: %s)" % [b[0] for b in broken])
 # ---------------------------------------------------------------- 2. the real binary over histories
 exe_sc, out = ck.build_repo_cmd("./cmd/staticcheck", "staticcheck-c04")
 if exe_sc is None:
@@ -88,6 +94,7 @@ for r in (tables.get("UN") or []):
     if m:
         envflip.append(m.group(1))
 
+ck.log("binaries built; running histories")
 work = ck.mkscratch()
 res = os.path.join(work, "out.json")
 args = [exe, "-work", work, "-out", res, "-seed", str(ck.seed), "-bin", ",".join(bins)]
@@ -95,7 +102,7 @@ if ck.thorough():
     args += ["-hist", os.environ.get("VERIF_C04_HIST", "40"), "-steps", "8", "-par", "8", "-thorough"]
 else:
     # VERIF_C04_HIST: debugging aid (mutation testing): number of random histories
-    args += ["-hist", os.environ.get("VERIF_C04_HIST", "5"), "-steps", "6", "-par", "8"]
+    args += ["-hist", os.environ.get("VERIF_C04_HIST", "4"), "-steps", "6", "-par", "8"]
 if envflip:
     args += ["-envflip", ",".join(sorted(set(envflip)))]
 env = dict(GOENV)
@@ -103,6 +110,7 @@ env["VERIF_REPO"] = REPO
 rc, out = sh(args, timeout=6000, env=env)
 if rc != 0:
     bail("harness-run", "harness run failed: " + out[-500:], out)
+ck.log("harness done")
 data = json.load(open(res))
 steps = data["Steps"]
 if any(s["WarmRC"] == -1 or (s["Compared"] and s["ColdRC"] == -1) for s in steps):
@@ -165,6 +173,7 @@ if V is None:
 else:
     vio = [(int(a), int(b)) for a, b in re.findall(r"\((\d+), (\d+)\)", V)]
 
+ck.log("cases evaluated: %d steps compared, %d warm!=cold" % (len(compared), len(vio)))
 bystep = {(s["Hist"], s["Index"]): s for s in steps}
 
 
